@@ -37,6 +37,7 @@ import (
 	"go/token"
 	"os"
 	"path/filepath"
+	"sort"
 	"strconv"
 	"strings"
 	"sync"
@@ -164,6 +165,7 @@ type world struct {
 	counter  int
 	skip     context.Context
 	typeDefs []*openfgav1.TypeDefinition
+	rootDefs []*openfgav1.TypeDefinition
 }
 
 var (
@@ -213,9 +215,9 @@ func getWorld() *world {
 		root, err := boot.CreateStore(ctx, &openfgav1.CreateStoreRequest{Name: "root-store"})
 		must(err)
 		w.rootID = root.GetId()
+		w.rootDefs = dsl.MustTransformDSLToProto(rootModelDSL()).GetTypeDefinitions()
 		wm, err := boot.WriteAuthorizationModel(ctx, &openfgav1.WriteAuthorizationModelRequest{
-			StoreId: w.rootID, SchemaVersion: typesystem.SchemaVersion1_1,
-			TypeDefinitions: dsl.MustTransformDSLToProto(rootModelDSL()).GetTypeDefinitions(),
+			StoreId: w.rootID, SchemaVersion: typesystem.SchemaVersion1_1, TypeDefinitions: w.rootDefs,
 		})
 		must(err)
 		w.rootMID = wm.GetAuthorizationModelId()
@@ -444,7 +446,16 @@ func (w *world) api(f []string) string {
 	case "ReadAssertions":
 		_, err = s.ReadAssertions(ctx, &openfgav1.ReadAssertionsRequest{StoreId: sid, AuthorizationModelId: w.mid(store)})
 	case "WriteAuthorizationModel":
-		_, err = s.WriteAuthorizationModel(ctx, &openfgav1.WriteAuthorizationModelRequest{StoreId: sid, SchemaVersion: typesystem.SchemaVersion1_1, TypeDefinitions: w.typeDefs})
+		tds := w.typeDefs
+		if store == "r" {
+			tds = w.rootDefs // keep the latest model of the access-control store what it was
+		}
+		if store == "n" {
+			// an invalid model: a store that does not exist must not acquire a model through an authorized case
+			tds = []*openfgav1.TypeDefinition{{Type: "doc", Relations: map[string]*openfgav1.Userset{"r": this()},
+				Metadata: &openfgav1.Metadata{Relations: map[string]*openfgav1.RelationMetadata{"r": {DirectlyRelatedUserTypes: []*openfgav1.RelationReference{{Type: "undefined_type"}}}}}}}
+		}
+		_, err = s.WriteAuthorizationModel(ctx, &openfgav1.WriteAuthorizationModelRequest{StoreId: sid, SchemaVersion: typesystem.SchemaVersion1_1, TypeDefinitions: tds})
 	case "Expand":
 		_, err = s.Expand(ctx, &openfgav1.ExpandRequest{StoreId: sid, TupleKey: &openfgav1.ExpandRequestTupleKey{Object: "ta:1", Relation: "member"}})
 	case "ReadChanges":
@@ -488,7 +499,7 @@ func (w *world) api(f []string) string {
 				if c := e.GetContext(); c != nil {
 					if ev := c.GetFields()["error"]; ev != nil {
 						stc := ev.GetStructValue().GetFields()["status"].GetNumberValue()
-						if stc == 403 {
+						if strings.Contains(ev.GetStructValue().GetFields()["message"].GetStringValue(), "the principal is not authorized to perform the action") {
 							return "forbidden"
 						}
 						return "err:item" + strconv.Itoa(int(stc))
@@ -559,6 +570,9 @@ func (w *world) listStores(ctx context.Context, extra string) string {
 	if len(got) == 0 {
 		return "ok -"
 	}
+	// canonical order (the response is ordered by store id, i.e. by random ULIDs); duplicates are kept
+	rank := map[string]int{"r": 0, "0": 1, "1": 2, "2": 3, "3": 4, "?": 5}
+	sort.SliceStable(got, func(i, j int) bool { return rank[got[i]] < rank[got[j]] })
 	return "ok " + strings.Join(got, ",")
 }
 
@@ -834,6 +848,8 @@ func genIdent(c *hx.Rand) string {
 }
 
 func gen(r *hx.Rand, n int, tier string, emit func(string), st *hx.Stats) {
+	// hx.NewRand(seed) and hx.NewRand(seed+1) are the same stream shifted by one draw: re-seed from a mixed output
+	r = hx.NewRand(r.U64())
 	for i := 0; i < n; i++ {
 		c := r.Fork()
 		switch k := c.Intn(20); {
